@@ -345,6 +345,16 @@ def reparam_rule(ctx, rule="ALG-reparam"):
             return any(leaks(x, shielded) for x in t if isinstance(x, tuple))
         if leaks(e):
             ck.fail("noise independent of the parameter values (only shapes may be used)", f"found {short(e, ev, 200)}")
+        # SHAPE: the noise must have the broadcast shape of ALL parameters it is combined with elementwise — otherwise a
+        # batched parameter paired with a scalar one shares a single draw across its lanes
+        if name != "MultivariateNormalREPARAM":
+            missing = [i for i, p_ in enumerate((p0, p1)) if not any(x == p_ for x in subterms(e))]
+            if missing:
+                ck.fail("noise shaped by the broadcast of both parameters",
+                        f"the noise draw {short(e, ev, 160)} does not depend on the shape of parameter {missing}: with that parameter batched and the other "
+                        "scalar, every lane shares one draw (lanes perfectly correlated)")
+        elif not any(x == p0 for x in subterms(e)):
+            ck.fail("noise shaped by the location", f"found {short(e, ev, 160)}")
         # standard noise: location 0 / scale 1 (or [0, 1] for uniform; identity covariance)
         a0, a1 = (e[2] + (NONE, NONE))[:2]
         z = any(is_call(a0, name=n) for n in ("jax.numpy.zeros_like", "jax.numpy.zeros")) or lin.lin(a0) == {}
